@@ -55,7 +55,7 @@ PLUGIN_SITES = {
     "hasrepr": ("==", "Opaque(1)", "", "create"),
     "ext": ("==", "outsource('x')", "", "create"),
 }
-STYLES = ("plain", "uni", "tab", "nest", "semi", "comment")
+STYLES = ("plain", "uni", "tab", "nest", "semi", "comment", "attr", "callcallee")
 
 
 def bounds(tier):
@@ -72,6 +72,10 @@ def _fsets(tier):
 def _expr(name, style):
     op, obs, arg, cat = (SITES.get(name) or PLUGIN_SITES[name])
     s = "snapshot(%s)" % arg
+    if style == "attr":
+        s = "inline_snapshot.snapshot(%s)" % arg
+    if style == "callcallee":
+        s = "lib(\"x\").snapshot(%s)" % arg
     if style == "uni":
         obs = '("é🐍ß", %s)[1]' % obs
     if op == "[k]":
@@ -93,7 +97,8 @@ def line(names, style):
     return ind + "assert " + body + "\n"
 
 
-HELPERS = "def same(s, v):\n    return v == s\n\n\ndef wrap(v):\n    return v\n\n\n"
+HELPERS = ("import inline_snapshot\n\n\ndef same(s, v):\n    return v == s\n\n\ndef wrap(v):\n    return v\n\n\n"
+           "def lib(name):\n    return inline_snapshot\n\n\n")
 
 
 def build_file(tests, header="from inline_snapshot import snapshot\n", needs=(), weird=False):
